@@ -196,6 +196,32 @@ def diff_cases(ctx, thorough):
                        "1" if vs["mem"] else "0", dict(test="diff_test", a=sa, b=sb))
             ctx.nontriv("diff", sa, sb)
         ctx.bump("diff")
+    # the SAME arguments for both runs and a program that behaves differently from run to run (a flakiness check): the second
+    # run is really made and compared
+    flaky = loaders.scratch() / "c19flaky"
+    state = loaders.scratch() / "c19flaky.state"
+    flaky.write_text("#!%s\nimport os,sys\np=%r\nn=int(open(p).read()) if os.path.exists(p) else 0\nopen(p,'w').write(str(n+1))\n"
+                     "os.write(1, b'run %%d\\n' %% (n %% 2) if sys.argv[-1]=='out' else b'same\\n')\nos._exit(n %% 2 if sys.argv[-1]=='code' else 0)\n"
+                     % (sys.executable, str(state)))
+    flaky.chmod(flaky.stat().st_mode | stat.S_IXUSR)
+    for what, want in (("out", True), ("code", True), ("none", False)):
+        for a_arg, b_arg in (("", ""), ("x y", "x  y"), ("  ", "")):
+            for mode in ("mem", "file"):
+                if state.exists():
+                    state.unlink()
+                prefix = None if mode == "mem" else str(loaders.scratch() / "c19-diff")
+                case = dict(test="diff_test", a=a_arg, b=b_arg, child=f"alternates its {what}", mode=mode)
+                try:
+                    v = bool(diff_test.interesting(["-a", a_arg, "-b", b_arg, str(flaky), what], prefix))
+                except (Exception, SystemExit) as exc:  # pylint: disable=broad-except
+                    ctx.fail("diff-raises", f"diff_test raised {type(exc).__name__}: {exc}", case)
+                    continue
+                ctx.evaluations += 1
+                ctx.bump("diff-same-args")
+                runs = int(state.read_text()) if state.exists() else 0
+                if v != want or runs != 2:
+                    ctx.fail("diff-verdict", f"diff_test ({mode}) with identical arguments {a_arg!r}/{b_arg!r} and a program that alternates its {what}: "
+                             f"verdict {v} (expected {want}), the program was run {runs} times (expected 2)", case)
     if thorough:
         # a timed-out run reports no exit code: differs from a run that exits 0 with the same output
         for mode in ("mem", "file"):
@@ -223,7 +249,9 @@ def repeat_cases(ctx, thorough):
         for n in range(1, nmax + 1):
             for seq in itertools.product((False, True), repeat=n):
                 for cookie, args in ((None, ["n=REPEATNUM;", "x", "REPEATNUMREPEATNUM"]), ("COOKIE", ["aCOOKIEb", "REPEATNUM", "--COOKIE"]),
-                                     ("é#", ["pé#q", "e"])):
+                                     ("é#", ["pé#q", "e"]),
+                                     # cookies are literal text, whatever characters they contain
+                                     ("$RUN", ["a$RUNb", "RUN"]), ("[I]", ["x[I]y", "I"]), ("N+", ["N+N", "NN"]), ("R.N", ["R.N", "RUN"])):
                     cli = (["-n", cookie] if cookie else []) + [str(n), "c19_inner"] + args
                     ck = cookie or "REPEATNUM"
                     case = dict(test="repeat", n=n, verdicts="".join("1" if v else "0" for v in seq), cookie=ck, args=args)
@@ -265,6 +293,7 @@ def repeat_cases(ctx, thorough):
 
 
 def run(ctx) -> int:
+    common.default_signal_dispositions()
     proof = common.proof_stage(ctx.pid)
     outputs_cases(ctx, ctx.thorough)
     timeout_cases(ctx, ctx.thorough)
